@@ -18,7 +18,7 @@ func (eng *Engine) initStubs() {
 	eng.stubs = s
 	vp := func(e *Exec, caller *frame, fn *ssa.Function, args []Value) Value { return e.vpCall(caller, fn, args) }
 	for _, n := range []string{"Bool", "Byte", "Int8", "Uint8", "Int16", "Uint16", "Int32", "Uint32", "Int64", "Uint64", "Int", "Uint",
-		"Bytes", "Choice", "Assume", "Assert", "Cover", "ExpectPanic", "SizeBound", "Unwind", "MaxSteps", "UF", "Symbolic", "Observe", "Now", "FreezeClock", "SetDial", "SetUF", "PoolMode"} {
+		"Bytes", "Choice", "Assume", "Assert", "Cover", "ExpectPanic", "SizeBound", "Unwind", "MaxSteps", "UF", "Symbolic", "Observe", "Now", "FreezeClock", "SetDial", "SetUF", "PoolMode", "NoSpin"} {
 		s[vpPath+"."+n] = vp
 	}
 	s[vpPath+".Tier"] = func(e *Exec, _ *frame, _ *ssa.Function, _ []Value) Value { return e.tc.BV(uint64(e.eng.tier), 64) }
